@@ -45,7 +45,7 @@ if __name__ == "__main__":
     base = "seeded" if "--seeded" in sys.argv else "harmless"   # --seeded: cross-property matrix of the seeded (property-breaking) changes
     ids = [a for a in sys.argv[1:] if not a.startswith("--")] or sorted(x for x in os.listdir(os.path.join(REAL_VERIF, base)) if x != "obsolete")
     from concurrent.futures import ThreadPoolExecutor
-    with ThreadPoolExecutor(max_workers=3) as ex:
+    with ThreadPoolExecutor(max_workers=int(os.environ.get("WORKERS", "3"))) as ex:
         res = list(ex.map(lambda s: run_one(s, replay, base), ids))
     for r in res:
         bad = {k: v for k, v in (r.get("per_property") or {}).items() if v != "OK"}
